@@ -218,6 +218,10 @@ def run(ctx):
                        "distinct by stream bytes, all non-trivial")
     ctx.sample({"template": TEMPLATES[0].decode("latin-1"), "classes": [n for n, _ in CLASS_MUTATIONS][:10]})
     ctx.log("%d streams judged against the strict reader: %d failures" % (nstreams, len(fails)))
+    # what the workers put between two calls of the parser (the connection object, its parser, the socket) belongs to the framing
+    # too: real masters of every class, requests sent one by one, bodies with request-like text left unread, call counts
+    import lib_battery
+    lib_battery.report(ctx, "bodies", "battery")
     seen_kinds = set()
     for tag, stream, (what, detail), chunks in fails:
         kind = what.split(":")[0][:60]
@@ -286,6 +290,9 @@ def framing_cases(ctx):
 
 
 def replay(rep):
+    if rep.get("kind") == "battery":
+        import lib_battery
+        return lib_battery.replay(rep)
     stream = rep["stream"].encode("latin-1")
     chunks = [c.encode("latin-1") for c in rep["chunks"]] if rep.get("chunks") else None
     st = impl_requests(lp.make_spec(), stream, chunks)
